@@ -26,11 +26,9 @@ func (v *vItem) SelectLink(input int) (string, *mime.MediaType, bool) { return "
 // fewer items than asked only together with an empty continuation).
 type vSource struct {
 	items []pub.Tangible
-	calls *int
 }
 
 func (s *vSource) Harvest(quantity uint, startingAt uint) ([]pub.Tangible, pub.Container, uint) {
-	*s.calls++
 	n := uint(len(s.items))
 	if startingAt >= n {
 		return []pub.Tangible{}, nil, 0
@@ -47,7 +45,6 @@ func c11Sources() (Splicer, [][]*vItem) {
 	maxItems := verifrt.Param("items", 2)
 	s := make(Splicer, K)
 	all := make([][]*vItem, K)
-	calls := 0
 	for i := 0; i < K; i++ {
 		n := verifrt.Choice("count", maxItems+1)
 		var items []pub.Tangible
@@ -61,7 +58,7 @@ func c11Sources() (Splicer, [][]*vItem) {
 		}
 		s[i].elements = []pub.Tangible{}
 		if n > 0 || verifrt.Choice("nilpage", 2) == 0 {
-			s[i].page = &vSource{items: items, calls: &calls}
+			s[i].page = &vSource{items: items}
 		}
 	}
 	return s, all
